@@ -407,6 +407,8 @@ func IsNamespaceScoped(typeMeta yaml.TypeMeta) (bool, bool) {
 	if isInitSchemaNeededForNamespaceScopeCheck() {
 		initSchema()
 	}
+	schemaLock.RLock()
+	defer schemaLock.RUnlock()
 	isNamespaceScoped, found := globalSchema.namespaceabilityByResourceType[typeMeta]
 	return isNamespaceScoped, found
 }
